@@ -1,0 +1,41 @@
+//go:build verif
+
+package fsnotify
+
+// Contracts (structured comments, read by /verif's verification-condition
+// generator) for the platform-independent functions in fsnotify.go. This file
+// contains no code; it is only compiled with -tags verif.
+
+//@ func (o Op) Has(h Op) (r bool)
+//@   ensures r <==> (o & h != 0)              [C16] "Has is true exactly when the two operation sets intersect"
+
+//@ func (e Event) Has(op Op) (r bool)
+//@   ensures r <==> (e.Op & op != 0)          [C16] "Event.Has agrees with Op.Has"
+
+// Op.String: the names of the defined operations present, each once, joined by
+// '|' in the pinned order; "[no events]" when none is present. opAll is the
+// text with a leading '|' before every name.
+//@ def opTok(o Op, bit Op, name string) := ite(o & bit != 0, cat("|", name), "")
+//@ def opAll(o Op) := cat(opTok(o, Create, "CREATE"), cat(opTok(o, Remove, "REMOVE"), cat(opTok(o, Write, "WRITE"),
+//@        cat(opTok(o, xUnportableOpen, "OPEN"), cat(opTok(o, xUnportableRead, "READ"), cat(opTok(o, xUnportableCloseWrite, "CLOSE_WRITE"),
+//@        cat(opTok(o, xUnportableCloseRead, "CLOSE_READ"), cat(opTok(o, Rename, "RENAME"), opTok(o, Chmod, "CHMOD")))))))))
+//@ def opString(o Op) := ite(opAll(o) == "", "[no events]", drop(opAll(o), 1))
+//@ def opMember(s string, name string) := contains(cat("|", cat(s, "|")), cat("|", cat(name, "|")))
+
+//@ func (o Op) String() (s string)
+//@   opt strings
+//@   opt split = o:9
+//@   ensures s == opString(o)                                   [C16] "names exactly the defined operations present, joined by | in fixed order; [no events] when none"
+//@   ensures (o & Create != 0) <==> opMember(s, "CREATE")       [C16] "distinct sets render differently: CREATE is decodable"
+//@   ensures (o & Remove != 0) <==> opMember(s, "REMOVE")       [C16] "distinct sets render differently: REMOVE is decodable"
+//@   ensures (o & Write != 0) <==> opMember(s, "WRITE")         [C16] "distinct sets render differently: WRITE is decodable"
+//@   ensures (o & xUnportableOpen != 0) <==> opMember(s, "OPEN")   [C16] "distinct sets render differently: OPEN is decodable"
+//@   ensures (o & xUnportableRead != 0) <==> opMember(s, "READ")   [C16] "distinct sets render differently: READ is decodable"
+//@   ensures (o & xUnportableCloseWrite != 0) <==> opMember(s, "CLOSE_WRITE")   [C16] "distinct sets render differently: CLOSE_WRITE is decodable"
+//@   ensures (o & xUnportableCloseRead != 0) <==> opMember(s, "CLOSE_READ")     [C16] "distinct sets render differently: CLOSE_READ is decodable"
+//@   ensures (o & Rename != 0) <==> opMember(s, "RENAME")       [C16] "distinct sets render differently: RENAME is decodable"
+//@   ensures (o & Chmod != 0) <==> opMember(s, "CHMOD")         [C16] "distinct sets render differently: CHMOD is decodable"
+
+//@ func (e Event) String() (s string)
+//@   ensures e.renamedFrom == "" ==> s == sprintf("%-13s %q", opString(e.Op), e.Name)                          [C16] "shows the operation text and the quoted name"
+//@   ensures e.renamedFrom != "" ==> s == sprintf("%-13s %q ← %q", opString(e.Op), e.Name, e.renamedFrom)      [C16 C11] "for the new name of a rename, also the quoted old name, in that order"
